@@ -8,6 +8,7 @@ from ..r_construct import (rule_keep_lists, rule_literal_keys, rule_construction
 from ..r_alias import rule_no_mutation_of_cached, rule_no_stale_alias, rule_merge_fresh, rule_row_order
 from ..r_keys import rule_fresh_keys
 from ..r_hygiene import rule_hygiene as _rule_hygiene
+from ..r_rings import rule_tentative_rollback as _rule_rollback
 
 LEVEL = 'other'
 
@@ -37,3 +38,4 @@ def run(ck, repo):
     rule_row_order(ck, repo, 'A4-row-order')
     rule_fresh_keys(ck, repo, 'B8-fresh-atom-numbers')
     _rule_hygiene(ck, repo, 'C13.H-dataflow-hygiene', 'C13')
+    _rule_rollback(ck, repo, 'C13.D4-tentative-rollback', ['chython.algorithms.standardize.resonance:Resonance.fix_resonance'])
